@@ -156,7 +156,7 @@ def name_pool(rng, style):
 def gen_netlist(rng, mode="full", max_stmts=10, max_inputs=5, depth=4, lookalike=0.0, escaped=0.0, nbb=None, stats=None, neg=None):
     """mode: 'full' (C02) or 'fast' (the fast parser's documented subset, C14)."""
     fast = mode == "fast"
-    style = rng.choice(["plain", "plain", "caps"] + ([] if fast else ["under", "dollar"]))
+    style = rng.choice(["plain", "plain", "caps", "under", "dollar"])
     nm = name_pool(rng, style)
     ni = rng.randint(1, max_inputs)
     inputs = [nm("in", i) for i in range(ni)]
